@@ -642,6 +642,15 @@ func (e *Engine) evIndex(x *ast.IndexExpr, st *State) Value {
 	}
 	i := e.ev(x.Index, st)
 	it := e.idx64(i)
+	if e.c != nil && e.spec == 0 && len(e.inlineStack) == 0 {
+		for _, ia := range e.c.IdxAsserts {
+			if exprStr(x.X) == ia.Base {
+				e.obligeNamed(st, fmt.Sprintf("idx:%s#%d", ia.Base, e.cnt["idx:"+ia.Base]), "post", and(e.le(e.ilit(ia.Lo), it), e.lt(it, e.ilit(ia.Hi))), x.Pos(),
+					fmt.Sprintf("index of %s is in [%s, %s)", exprStr(x), ia.Lo, ia.Hi), ia.Prop)
+				e.cnt["idx:"+ia.Base]++
+			}
+		}
+	}
 	if pt, ok := bt.Underlying().(*types.Pointer); ok { // pointer to array
 		e.oblige(st, "nil", not(eq(base.T, e.izero())), x.Pos(), "nil array pointer")
 		base = e.loadPtr(st, base.T, pt.Elem())
